@@ -96,17 +96,14 @@ def compactBacklog (b : RB) (r : Msg) : RB :=
       let newBuf := fillBuf cat sufBytes.toNat
       { b with backlog := b.backlog.take startIdx ++ [.data newBuf], sufBytes := 0, sufLen := 0 }
 
-/-- `recvBuffer.put(r)`.  When `b.err != nil` the Go code runs `r.buffer.Free()` before returning:
-    for `r = recvMsg{err: e}` the buffer is the nil interface and the call PANICS (see `putPanics`);
-    the deferred unlock runs and the buffer is left unchanged, which is what this function returns. -/
+/-- `recvBuffer.put(r)`.  When `b.err != nil` the message is dropped (`if r.buffer != nil
+    { r.buffer.Free() }`, since /repo commit 6c0457f; before it an error message — nil buffer —
+    made this branch panic, finding F19) and the buffer is left unchanged. -/
 def put (b : RB) (r : Msg) : RB :=
   if b.err.isSome then b else
   let b := { b with err := r.errOf }
   if b.backlog.isEmpty && b.chan.isNone then { b with chan := some r }
   else compactBacklog { b with backlog := b.backlog ++ [r] } r
-
-/-- `r.buffer.Free()` on a nil `mem.Buffer` in the `b.err != nil` branch of `put`. -/
-def putPanics (b : RB) (r : Msg) : Bool := b.err.isSome && !r.isData
 
 /-- `recvBuffer.load()` -/
 def load (b : RB) : RB :=
@@ -152,7 +149,7 @@ inductive Out
   | took                 -- rbegin received a message
   | skip                 -- rbegin: Read would not reach the channel; fin: nothing held
   | busy                 -- reader op while a message is held (single reader goroutine)
-  | panic                -- the call panics (nil-interface method call)
+  | panic                -- the IMPLEMENTATION panicked or hung (never produced by the model; always a violation)
 deriving DecidableEq, Repr
 
 /-- `readAdditional(m, n)` after its `r.recv.load()`, with Read's `buf, r.err = …`. -/
@@ -176,7 +173,7 @@ def readHeaderAdditional (rd : Reader) (m : Msg) (k : Nat) : Reader × Out :=
 
 def step (s : State) : Op → State × Out
   | .putD b => ({ s with rb := put s.rb (.data b) }, .ok)
-  | .putE e => ({ s with rb := put s.rb (.err e) }, if putPanics s.rb (.err e) then .panic else .ok)
+  | .putE e => ({ s with rb := put s.rb (.err e) }, .ok)
   | .load => ({ s with rb := load s.rb }, .ok)
   | .read n =>
     if s.held.isSome then (s, .busy) else
@@ -275,7 +272,8 @@ def Spec.check (sp : Spec) : Op → Out → Except String Spec
     if sp.perr.isSome then .ok sp
     else .ok { sp with queue := sp.queue ++ b, empties := if b.isEmpty then sp.empties + 1 else sp.empties }
   | .putE e, .ok => if sp.perr.isSome then .ok sp else .ok { sp with perr := some e }
-  | .putE _, .panic => .error "put of an error after the stream already ended panics (nil buffer Free)"
+  | .putD _, .panic => .error "put panics"
+  | .putE _, .panic => .error "put of an error panics"
   | .load, .ok => .ok sp
   | .read n, o => sp.readCheck n o
   | .hdr k, o => sp.readCheck k o
